@@ -3,6 +3,7 @@ package main
 import (
 	"fmt"
 	"strings"
+	"sync/atomic"
 )
 
 // Term is an SMT term: BV of width W (W>0) or Bool (W==0).
@@ -15,7 +16,7 @@ type Term struct {
 	id   int
 }
 
-var termCount int
+var termCount int64
 
 func mask(w int) uint64 {
 	if w >= 64 {
@@ -25,8 +26,8 @@ func mask(w int) uint64 {
 }
 
 func mkT(op string, w int, args ...*Term) *Term {
-	termCount++
-	return &Term{Op: op, W: w, Args: args, id: termCount}
+	id := atomic.AddInt64(&termCount, 1)
+	return &Term{Op: op, W: w, Args: args, id: int(id)}
 }
 func C(v uint64, w int) *Term { t := mkT("const", w); t.Val = v & mask(w); return t }
 func B(b bool) *Term {
